@@ -57,7 +57,7 @@ def unit_cases():
 
 @st.composite
 def bits_case(draw):
-    o = gens.opts(bits_weight=11, max_fields=6, max_depth=1, unions=False, pointers=False, floats=False, wchar=False, void=False, eof=False, signed_flags=False)
+    o = gens.opts(bits_weight=11, max_fields=6, max_depth=1, unions=False, pointers=draw(st.booleans()), floats=draw(st.booleans()), wchar=draw(st.booleans()), void=draw(st.booleans()), eof=False, signed_flags=False, bits_char=True, bits_odd=True, wide_bits=True)
     return draw(gens.input_case(o))
 
 
